@@ -637,19 +637,51 @@ class BcdView final {
   ValueType UncheckedRead() const {
     return ConvertToBinary(buffer_.UncheckedReadUInt());
   }
-  void Write(ValueType value) const {
+  // As with UIntView, above, Write, TryToWrite, and CouldWriteValue are
+  // templated in order to avoid surprises due to implicit narrowing of the
+  // argument: CouldWriteValue(256) on an 8-bit Bcd must see 256, not 0.
+  template <typename IntT,
+            typename = typename ::std::enable_if<
+                (::std::numeric_limits<typename ::std::remove_cv<
+                     typename ::std::remove_reference<IntT>::type>::type>::
+                     is_integer &&
+                 !::std::is_same<bool, typename ::std::remove_cv<
+                                           typename ::std::remove_reference<
+                                               IntT>::type>::type>::value) ||
+                ::std::is_enum<IntT>::value>::type>
+  void Write(IntT value) const {
     const bool result = TryToWrite(value);
     (void)result;
     EMBOSS_CHECK(result);
   }
-  bool TryToWrite(ValueType value) const {
+  template <typename IntT,
+            typename = typename ::std::enable_if<
+                (::std::numeric_limits<typename ::std::remove_cv<
+                     typename ::std::remove_reference<IntT>::type>::type>::
+                     is_integer &&
+                 !::std::is_same<bool, typename ::std::remove_cv<
+                                           typename ::std::remove_reference<
+                                               IntT>::type>::type>::value) ||
+                ::std::is_enum<IntT>::value>::type>
+  bool TryToWrite(IntT value) const {
     if (!CouldWriteValue(value)) return false;
     if (!IsComplete()) return false;
-    buffer_.WriteUInt(ConvertToBcd(value));
+    buffer_.WriteUInt(ConvertToBcd(static_cast<ValueType>(value)));
     return true;
   }
-  static constexpr bool CouldWriteValue(ValueType value) {
-    return value <= MaxValue() && Parameters::ValueIsOk(value);
+  template <typename IntT,
+            typename = typename ::std::enable_if<
+                (::std::numeric_limits<typename ::std::remove_cv<
+                     typename ::std::remove_reference<IntT>::type>::type>::
+                     is_integer &&
+                 !::std::is_same<bool, typename ::std::remove_cv<
+                                           typename ::std::remove_reference<
+                                               IntT>::type>::type>::value) ||
+                ::std::is_enum<IntT>::value>::type>
+  static constexpr bool CouldWriteValue(IntT value) {
+    return value >= 0 &&
+           static_cast</**/ ::std::uint64_t>(value) <= MaxValue() &&
+           Parameters::ValueIsOk(static_cast<ValueType>(value));
   }
   void UncheckedWrite(ValueType value) const {
     buffer_.UncheckedWriteUInt(ConvertToBcd(value));
